@@ -53,6 +53,56 @@ type jnode struct {
 
 type jsonState struct {
 	trees []*jnode
+	canon map[string]int
+}
+
+// jsonCanon is a canonical rendering of a tree (symbolic leaves by term identity), used to
+// give structurally equal trees the same handle: equal JSON text <=> equal handle bytes.
+func jsonCanon(n *jnode, sb *strings.Builder) {
+	switch n.kind {
+	case jNull:
+		sb.WriteString("null")
+	case jBool:
+		sb.WriteString("b:" + n.b.ref())
+	case jNum:
+		if n.i != nil {
+			fmt.Fprintf(sb, "i%v:%s", n.signed, n.i.ref())
+		} else {
+			sb.WriteString("f:" + n.f.ref())
+		}
+	case jStr:
+		switch s := n.s.(type) {
+		case string:
+			sb.WriteString(strconv.Quote(s))
+		case symString:
+			sb.WriteString("s[")
+			for _, t := range s {
+				sb.WriteString(t.ref() + ",")
+			}
+			sb.WriteString("]")
+		}
+	case jBytes:
+		sb.WriteString("B[")
+		for _, t := range n.bytes {
+			sb.WriteString(t.ref() + ",")
+		}
+		sb.WriteString("]")
+	case jArr:
+		sb.WriteString("[")
+		for _, e := range n.arr {
+			jsonCanon(e, sb)
+			sb.WriteString(",")
+		}
+		sb.WriteString("]")
+	case jObj:
+		sb.WriteString("{")
+		for _, f := range n.obj {
+			sb.WriteString(strconv.Quote(f.key) + ":")
+			jsonCanon(f.val, sb)
+			sb.WriteString(",")
+		}
+		sb.WriteString("}")
+	}
 }
 
 func (m *Machine) jsonSt() *jsonState {
@@ -66,8 +116,18 @@ func (m *Machine) jsonSt() *jsonState {
 
 func (m *Machine) jsonHandle(n *jnode) []value {
 	st := m.jsonSt()
-	st.trees = append(st.trees, n)
-	h := fmt.Sprintf("\x00J%d\x00", len(st.trees)-1)
+	if st.canon == nil {
+		st.canon = map[string]int{}
+	}
+	var sb strings.Builder
+	jsonCanon(n, &sb)
+	id, ok := st.canon[sb.String()]
+	if !ok {
+		st.trees = append(st.trees, n)
+		id = len(st.trees) - 1
+		st.canon[sb.String()] = id
+	}
+	h := fmt.Sprintf("\x00J%d\x00", id)
 	out := make([]value, len(h))
 	for i := 0; i < len(h); i++ {
 		out[i] = m.tt.Const(BV(8), uint64(h[i]))
